@@ -8,3 +8,14 @@ def new_verifier(numeric=None):
     for nm in ("forall", "exists", "implies", "distinct"):
         v.handlers["contracts._rt." + nm] = BUILTINS[nm]
     return v
+
+
+def with_models(v):
+    """pydantic construction contract + stdlib assumed contracts."""
+    from pyvc.models import construct
+    from pyvc.externals import STDLIB
+    from pyvc.ann import make_resolver
+    v.handlers["construct:*"] = construct
+    v.handlers.update(STDLIB)
+    v.ann_resolver = make_resolver(v.repo)
+    return v
